@@ -4,7 +4,7 @@ import logging
 import threading
 import types
 
-from common import done, load
+from common import done, load, probe_exception
 
 logging.disable(logging.CRITICAL)
 
@@ -145,7 +145,7 @@ def main(rec):
         try:
             v = f()
         except Exception as ex:  # noqa
-            v = f"{f.__name__} raised {type(ex).__name__}: {ex}"
+            v = probe_exception(f, ex)
         if v:
             done(True, v)
     done(False, "probes pass for " + rec.get("obligation", ""))
